@@ -201,7 +201,7 @@ class Watcher(object):
         self.use_sockets = use_sockets
         self.on_demand = on_demand
         self.res_name = name.lower().replace(" ", "_")
-        self.numprocesses = int(numprocesses)
+        self.numprocesses = max(0, int(numprocesses))
         self.warmup_delay = warmup_delay
         self.cmd = cmd
         self.args = args
